@@ -156,6 +156,17 @@ class Monitor:
                 out.append(fn())
             except Exception as e:
                 out.append("EXC " + type(e).__name__ + str(e)[:80])
+        # reference inputs that FAIL: type and message of the error must not depend on what was parsed before either
+        fails = []
+        for fn in (lambda: BF.Bf3File.read_file(io.StringIO(t3[: len(t3) - 9]), True, key), lambda: B.Bec2File.read_file(io.StringIO(t2[: len(t2) // 2]), [B.SoftwareCustKeyEncryptor(ck)]),
+                   lambda: B.Bec2File.read_file(io.StringIO(t2), []), lambda: BF.Bf3File.bf2_import(io.StringIO(":0000FE")), lambda: ns.bytes_reader.BytesReader(b"\x01", "ref").read(2),
+                   lambda: ns.configid.ConfigId.create_from_str("not an identifier")):
+            try:
+                fn()
+                fails.append("returned")
+            except Exception as e:
+                fails.append(type(e).__name__ + ":" + str(e)[:80])
+        out.append("|".join(fails))
         return out
 
     def check_globals(self, rp):
@@ -165,7 +176,7 @@ class Monitor:
         self.ctx.bin("reference_inputs_rechecked")
         if ref != self.ref0:
             which = [i for i, (a, b) in enumerate(zip(ref, self.ref0)) if a != b]
-            self.ctx.violation("result_for_fixed_input_depends_on_earlier_parses:" + ["bf3", "bec2", "bf2", "configid", "pfid2"][which[0]], {"now": ref[which[0]][:300], "first": self.ref0[which[0]][:300]}, rp)
+            self.ctx.violation("result_for_fixed_input_depends_on_earlier_parses:" + ["bf3", "bec2", "bf2", "configid", "pfid2", "failing_reference_inputs"][which[0]], {"now": ref[which[0]][:300], "first": self.ref0[which[0]][:300]}, rp)
             self.ref0 = ref
         now = global_state(self.ns)
         self.ctx.bin("global_state_compared")
